@@ -1064,6 +1064,50 @@ func shareInline(t *rapid.T, p *Program, variant bool) bool {
 	return false
 }
 
+// InlineShadowsPacket renames an inline object after a top-level packet declared elsewhere (with
+// another layout): names of inline objects are local to the packet that declares them.
+func InlineShadowsPacket(t *rapid.T, p *Program) bool {
+	for _, k := range p.Packets {
+		for _, f := range k.Fields {
+			if f.Kind != KInline {
+				continue
+			}
+			var cands []*Packet
+			for _, o := range p.Packets {
+				if o != k && k.FieldByName(o.Name) == nil && !usesName(p, o.Name) {
+					cands = append(cands, o)
+				}
+			}
+			if len(cands) == 0 {
+				return false
+			}
+			o := cands[rapid.IntRange(0, len(cands)-1).Draw(t, "shadowed_packet")]
+			f.Name, f.Inline.Name = o.Name, o.Name
+			return true
+		}
+	}
+	return false
+}
+
+// usesName: some inline object is already called name.
+func usesName(p *Program, name string) bool {
+	var walk func(k *Packet) bool
+	walk = func(k *Packet) bool {
+		for _, f := range k.Fields {
+			if f.Kind == KInline && (f.Inline.Name == name || walk(f.Inline)) {
+				return true
+			}
+		}
+		return false
+	}
+	for _, k := range p.Packets {
+		if walk(k) {
+			return true
+		}
+	}
+	return false
+}
+
 func hasRefs(k *Packet) bool {
 	for _, f := range k.Fields {
 		if f.Kind == KObj || f.Kind == KMatch || (f.Kind == KInline && hasRefs(f.Inline)) {
